@@ -146,18 +146,18 @@ def check_substore(ctx, acc, ab, cid, handlers, sent, aborts, case, where=""):
 
 def layer_substore(ctx, sets, ids_per_set, diff=True):
     cases = C18.substore_cases(ctx, sets, ids_per_set)
-    model = ctx.lean([["substore", L.acc_term(a), c, L.AB_CODE[ab]] for a, ab, c in cases]) if diff else [None] * len(cases)
+    model = ctx.lean([["substore", L.acc_term(a), c, L.AB_CODE[ab], L.substore_guard()] for a, ab, c in cases]) if diff else [None] * len(cases)
     for (acc, ab, cid), m in zip(cases, model):
         handlers, sent, aborts = C18.run_substore(acc, ab, cid)
         case = ["substore", {"acc": L.case_of_acc(acc), "ab": ab, "cid": cid}]
         ctx.case(case, nontrivial=cid not in acc,
-                 kind=f"substore:{'accepted-id' if cid in acc else 'unaccepted-id'}:{'handler' if handlers else 'refused'}")
+                 kind=f"substore:{'accepted-id' if cid in acc else 'unaccepted-id'}:{'handler' if handlers else 'refused' if sent else 'aborted'}")
         check_substore(ctx, acc, ab, cid, handlers, sent, aborts, case)
         if diff:
             real = [handlers[0] if handlers else None, sent[0][0] if sent else None,
                     bool(sent and sent[0][1] == 0x0122), aborts > 0]
-            mm = [None if m[0] == "none" else m[0], m[1], m[2] == "T", m[3] == "T"]
-            if len(handlers) > 1 or len(sent) != 1 or real != mm:
+            mm = [None if m[0] == "none" else m[0], None if m[1] == "none" else m[1], m[2] == "T", m[3] == "T"]
+            if len(handlers) > 1 or len(sent) > 1 or real != mm:
                 ctx.diff(case, [handlers, sent, aborts], m)
 
 
@@ -360,7 +360,7 @@ def layer_e2e_cget(ctx, n, per, diff=True, c18=False):
             continue
         acc = r["accepted"]
         desc = L.case_of_acc(acc)
-        model = ctx.lean([["substore", L.acc_term(acc), s["cid"], L.AB_CODE[s["ab"]]] for s in r["subops"]]) \
+        model = ctx.lean([["substore", L.acc_term(acc), s["cid"], L.AB_CODE[s["ab"]], L.substore_guard()] for s in r["subops"]]) \
             if diff and r["subops"] else [None] * len(r["subops"])
         if len(r["scu_pdv_ids"]) != len([s for s in r["subops"] if s["rsp"]]):
             ctx.diff(["e2e-cget", script], r["scu_pdv_ids"], [s["rsp"] for s in r["subops"]],
@@ -385,8 +385,8 @@ def layer_e2e_cget(ctx, n, per, diff=True, c18=False):
                                case, where="e2e: ")
             if diff:
                 real = [s["handler"][0] if s["handler"] else None, sent[0][0] if sent else None,
-                        bool(sent and sent[0][1] == 0x0122), bool(r["aborted"])]
-                mm = [None if m[0] == "none" else m[0], m[1], m[2] == "T", m[3] == "T"]
+                        bool(sent and sent[0][1] == 0x0122), bool(r["aborted"]) and not sent]
+                mm = [None if m[0] == "none" else m[0], None if m[1] == "none" else m[1], m[2] == "T", m[3] == "T"]
                 if real != mm:
                     ctx.diff(case, real, m)
 
